@@ -398,11 +398,279 @@ def x86_part(chk, base, outs, addends, stats, samples):
     return cells, packed
 
 
+
+# ============================================================================================ AArch64
+A64_M = ["-m", "aarch64linux"]
+
+
+def a64_prepare(base):
+    cells = R.a64_cells()
+    os.makedirs(base, exist_ok=True)
+
+    def put(name, src):
+        shutil.copyfile(vlib.assemble(src, arch="aarch64"), os.path.join(base, name))
+
+    put("probes.o", R.a64_probe_obj_src(cells))
+    put("defs.o", R.a64_obj_src("defs"))
+    put("so.o", R.a64_obj_src("so"))
+    put("ar.o", R.a64_obj_src("ar"))
+    put("helper.o", R.A64_HELPER)
+    subprocess.run(["ar", "rcD", "libar.a", "ar.o"], cwd=base, check=True)
+    for sub in ("so_wild", "so_lld"):
+        os.makedirs(os.path.join(base, sub), exist_ok=True)
+        shutil.copyfile(os.path.join(base, "so.o"), os.path.join(base, sub, "so.o"))
+    rc, msg = wildrun.server_link(A64_M + R.A64_SO_ARGV, cwd=os.path.join(base, "so_wild"))
+    if rc != 0:
+        return cells, f"wild cannot link the AArch64 libdefs.so: {msg[-300:]}"
+    r = subprocess.run(["ld.lld", *R.A64_SO_ARGV], cwd=os.path.join(base, "so_lld"), capture_output=True)
+    if r.returncode != 0:
+        return cells, f"ld.lld cannot link the AArch64 libdefs.so: {r.stderr.decode()[-300:]}"
+    return cells, None
+
+
+def a64_wild_accept_job(job):
+    base, out, idx = job
+    o = os.path.join(base, f"acc.{os.getpid()}")
+    rc, msg = wildrun.server_link(A64_M + R.a64_link_argv(out, o, "so_wild", roots=[idx]), cwd=base)
+    return out, idx, rc, (msg or "")[-600:]
+
+
+def lld_link(base, argv):
+    r = subprocess.run(["ld.lld", "--error-limit=0", *argv], cwd=base, capture_output=True)
+    return r.returncode, r.stderr.decode("utf-8", "replace")
+
+
+def a64_lld_single_job(job):
+    base, out, idx = job
+    rc, err = lld_link(base, R.a64_link_argv(out, os.path.join(base, f"lacc.{os.getpid()}"), "so_lld", roots=[idx]))
+    return out, idx, rc, err[-400:]
+
+
+def a64_lld_batch_job(job):
+    """ld.lld names the section of every failing relocation, so a few runs settle a whole batch."""
+    base, out, idxs = job
+    live, suspects, runs = list(idxs), [], 0
+    o = os.path.join(base, f"lbatch.{out}")
+    while live:
+        runs += 1
+        rc, err = lld_link(base, R.a64_link_argv(out, o, "so_lld", roots=live))
+        if rc == 0:
+            break
+        named = {int(m) for m in _SEC_RE.findall(err)} & set(live)
+        if not named:
+            return out, None, runs, err[-400:]
+        suspects += sorted(named)
+        live = [i for i in live if i not in named]
+    return out, suspects, runs, ""
+
+
+def a64_eval_job(job):
+    """Link all accepted probes of one (output kind, linker) into one image and evaluate every probe
+    with imgsim. -> dict(out, linker, verdicts {idx: (status, detail)}, error)"""
+    import imgsim
+    base, out, linker, sel, cells = job
+    res = dict(out=out, linker=linker, verdicts={}, error=None, spawns=0, argv=None)
+    if not sel:
+        return res
+    roots = f"roots_{linker}_{out}.o"
+    shutil.copyfile(vlib.assemble(R.a64_roots_src(sel), arch="aarch64"), os.path.join(base, roots))
+    sodir = "so_wild" if linker == "wild" else "so_lld"
+    output = os.path.join(base, f"img_{linker}_{out}")
+    argv = R.a64_link_argv(out, output, sodir, roots_obj=roots)
+    res["argv"] = argv
+    if linker == "wild":
+        rc, msg = wildrun.server_link(A64_M + argv, cwd=base)
+    else:
+        rc, msg = lld_link(base, argv)
+        res["spawns"] += 1
+    if rc != 0:
+        res["error"] = f"packed link failed rc={rc}: {msg[-400:]}"
+        return res
+    try:
+        res["verdicts"] = a64_evaluate(imgsim, output, os.path.join(base, sodir, "libdefs.so"), out, sel, cells)
+    except imgsim.SimError as ex:
+        res["error"] = f"imgsim: {type(ex).__name__}: {ex}"
+    except elfread.ElfError as ex:
+        res["error"] = f"elfread: {ex}"
+    return res
+
+
+def a64_evaluate(imgsim, output, sopath, out, sel, cells):
+    bases = [0x5555_0000_0000, 0x7f00_0000_0000]
+    images = [imgsim.Image(output, bases[0], "main")]
+    if out not in ("static", "static-pie"):
+        images.append(imgsim.Image(sopath, bases[1], "libdefs.so"))
+    proc = imgsim.Process(images, hooks={"__tls_get_addr": None})
+    proc.hooks[proc.hook_addr["__tls_get_addr"]] = proc.tls_get_addr_hook
+    main = images[0]
+    a = main.addr("__tls_get_addr")
+    if a is not None:
+        proc.hooks[a] = proc.tls_get_addr_hook
+    verdicts = {}
+    for idx in sel:
+        dn, rid, ad = cells[idx]
+        d, r = R.A64_DEF[dn], R.A64_REF[rid]
+        pa = main.addr(f"p{idx}")
+        if pa is None:
+            verdicts[idx] = ("missing", "probe symbol not in the output's .symtab")
+            continue
+        try:
+            cpu = imgsim.Cpu(proc)
+            x = cpu.call(pa)
+            if r.obs == "ea":
+                x = cpu.last_load if cpu.last_load is not None else 0
+            exp = []
+            if r.obs == "ret":
+                exp.append(("x0", x, d.marker))
+            elif d.cls in ("abs", "undefweak"):
+                lit = (d.value + ad) & R.M64
+                exp.append(("x0", x, lit & 0xffffffff if rid.startswith("ABS32") else lit))
+            elif d.cls == "func":
+                if d.module_local:
+                    tag = "_A" if d.where == "local" else ""
+                    wa = main.addr(f"whereis_{dn}{tag}")
+                    if wa is None:
+                        verdicts[idx] = ("unverifiable", "whereis not in the output")
+                        continue
+                    exp.append(("x0=whereis+A", x, (imgsim.Cpu(proc).call(wa) + ad) & R.M64))
+                exp.append(("call(x0-A)", imgsim.Cpu(proc).call((x - ad) & R.M64), d.marker))
+            else:
+                exp.append(("*(x0-A)", proc.mem.r64((x - ad) & R.M64), d.marker))
+            bad = [f"{n}: observed {o:#x} expected {e:#x}" for n, o, e in exp if o != e]
+            verdicts[idx] = ("bad", "; ".join(bad)) if bad else ("ok", f"{x:#x}")
+        except imgsim.Unsupported as ex:
+            verdicts[idx] = ("unsupported-insn", str(ex))
+        except imgsim.Fault as ex:
+            verdicts[idx] = ("crash", str(ex))
+    return verdicts
+
+
+def a64_key(cells, idx):
+    dn, rid, a = cells[idx]
+    kind, form = rid.split(":")
+    return f"aarch64:{kind}:{form}:{R.A64_DEF[dn].vclass}"
+
+
+def a64_part(chk, base, stats, samples):
+    cells, err = a64_prepare(base)
+    if err:
+        chk.machinery(err)
+    outs = R.OUTS
+    app = {o: [i for i, (dn, rid, a) in enumerate(cells) if R.applicable(R.A64_DEF[dn], R.A64_REF[rid], o, a)]
+           for o in outs}
+    st = dict(cells_defined=len(cells), members=sum(len(v) for v in app.values()), rejected_by_all=0,
+              wild_documents_unsupported=0, wild_rejects=0, wild_rejects_lld_output_wrong=0, wild_accepted=0,
+              lld_rejects_wild_accepts=0, wild_wrong_lld_right=0, wild_wrong_lld_rejects=0, both_wrong=0,
+              verdicts={}, unsupported_messages=set(), both_wrong_cells=set(), wild_wrong_lld_rejects_cells=set(),
+              emulator_unsupported=0, distinct=0, lld_runs=0)
+    rp = {"arch": "aarch64"}
+    wacc = {o: {} for o in outs}
+    for out, idx, rc, msg in wildrun.pmap(a64_wild_accept_job, [(base, o, i) for o in outs for i in app[o]]):
+        wacc[out][idx] = (rc, msg)
+        if rc not in (0, 1):
+            dn, rid, a = cells[idx]
+            chk.violation(f"link-crash:aarch64:{dn}:{rid}:{out}", f"wild rc={rc} linking {cells[idx]} as {out}: {msg[-300:]}",
+                          dict(rp, cell=cells[idx], out=out))
+    lrej = {}
+    for out, suspects, runs, err in vlib.pmap(a64_lld_batch_job, [(base, o, app[o]) for o in outs], procs=len(outs), chunksize=1):
+        st["lld_runs"] += runs
+        if suspects is None:
+            chk.machinery(f"ld.lld {out}: error without a section name: {err}")
+        lrej[out] = set(suspects)
+    for out, idx, rc, err in vlib.pmap(a64_lld_single_job, [(base, o, i) for o in outs for i in sorted(lrej[o])]):
+        st["lld_runs"] += 1
+        if rc == 0:
+            lrej[out].discard(idx)
+    jobs = []
+    for o in outs:
+        jobs.append((base, o, "wild", [i for i in app[o] if wacc[o][i][0] == 0], cells))
+        jobs.append((base, o, "lld", [i for i in app[o] if i not in lrej[o]], cells))
+    ev = {}
+    for res in wildrun.pmap(a64_eval_job, jobs, procs=len(jobs), chunksize=1):
+        ev[(res["out"], res["linker"])] = res
+        st["lld_runs"] += res["spawns"]
+    stats["subprocesses"] += st["lld_runs"] + 12
+    for o in outs:
+        ew, el = ev[(o, "wild")], ev[(o, "lld")]
+        if el["error"]:
+            chk.machinery(f"AArch64 reference image {o}: {el['error']}")
+        if ew["error"]:
+            chk.violation(f"aarch64:image:{o}", f"wild's packed AArch64 image cannot be evaluated: {ew['error']}",
+                          dict(rp, out=o, mode="image"))
+            continue
+        for idx in app[o]:
+            dn, rid, a = cells[idx]
+            stats["evaluations"] += 1
+            w_ok, l_ok = wacc[o][idx][0] == 0, idx not in lrej[o]
+            lstat = el["verdicts"].get(idx, ("missing", ""))[0] if l_ok else "rejected"
+            if not w_ok and not l_ok:
+                st["rejected_by_all"] += 1
+                continue
+            if not w_ok:
+                msg = wacc[o][idx][1]
+                if UNSUPPORTED_RE.search(msg):
+                    st["wild_documents_unsupported"] += 1
+                    st["unsupported_messages"].add(re.sub(r"\s+", " ", msg)[:200])
+                elif lstat != "ok":
+                    st["wild_rejects_lld_output_wrong"] += 1
+                else:
+                    st["wild_rejects"] += 1
+                    chk.violation(f"rejects:aarch64:{dn}:{rid}:{o}",
+                                  f"wild rejects AArch64 cell {cells[idx]} for output {o}; ld.lld links it and its image "
+                                  f"evaluates to the correct value. wild: {re.sub(chr(10), ' ', msg)[-300:]}",
+                                  dict(rp, cell=cells[idx], out=o))
+                continue
+            st["wild_accepted"] += 1
+            wst, detail = ew["verdicts"].get(idx, ("missing", ""))
+            st["verdicts"][wst] = st["verdicts"].get(wst, 0) + 1
+            if wst == "ok":
+                st["distinct"] += 1
+                continue
+            if wst == "unsupported-insn":
+                st["emulator_unsupported"] += 1
+                stats.setdefault("emulator_unsupported_samples", set()).add(detail[:80])
+                continue
+            if lstat == "ok":
+                st["wild_wrong_lld_right"] += 1
+                chk.violation(a64_key(cells, idx),
+                              f"AArch64 {rid} against {dn}{a:+d} in output kind {o}: {wst}: {detail}; ld.lld's image of the "
+                              f"same cell evaluates correctly", dict(rp, cell=cells[idx], out=o))
+            elif lstat == "rejected":
+                st["wild_wrong_lld_rejects"] += 1
+                st["wild_wrong_lld_rejects_cells"].add(f"{dn}:{rid}:{a}:{o}:{wst}")
+            else:
+                st["both_wrong"] += 1
+                st["both_wrong_cells"].add(f"{dn}:{rid}:{a}:{o}:wild={wst},lld={lstat}")
+        for idx in list(ew["verdicts"])[5:300:97]:
+            samples.append({"arch": "aarch64", "out": o, "cell": cells[idx], "verdict": ew["verdicts"][idx]})
+    return {k: (sorted(v) if isinstance(v, set) else v) for k, v in st.items()}
+
+
+def a64_replay(chk, spec, base):
+    cells, err = a64_prepare(base)
+    if err:
+        chk.machinery(err)
+    out = spec["out"]
+    if "cell" not in spec:
+        chk.machinery("replay of a whole AArch64 image is the thorough tier itself")
+    idx = cells.index(tuple(spec["cell"]))
+    _, _, rc, msg = a64_wild_accept_job((base, out, idx))
+    _, _, lrc, lerr = a64_lld_single_job((base, out, idx))
+    print(f"cell {cells[idx]} out={out}: wild rc={rc} {msg[-200:]!r}; ld.lld rc={lrc} {lerr[-200:]!r}")
+    v = {}
+    for linker, ok in (("wild", rc == 0), ("lld", lrc == 0)):
+        if ok:
+            res = a64_eval_job((base, out, linker, [idx], cells))
+            v[linker] = res["verdicts"].get(idx, ("error", res["error"]))
+            print(f"  {linker}: {' '.join(res['argv'])}\n    -> {v[linker]}")
+    if lrc == 0 and v.get("lld", ("?",))[0] == "ok" and (rc != 0 or v.get("wild", ("?",))[0] != "ok"):
+        chk.violation(spec.get("key", "replay"), "reproduced", spec)
+
+
 def replay(chk, spec):
     with vlib.scratch("c01r") as base:
         if spec.get("arch") == "aarch64":
-            import c01_a64
-            return c01_a64.replay(chk, spec, base)
+            return a64_replay(chk, spec, base)
         addends = spec["addends"]
         cells, err = prepare(base, addends)
         if err:
@@ -462,11 +730,11 @@ def main():
         x86_part(chk, base, outs, addends, stats, samples)
         a64 = {}
         if chk.thorough:
-            import c01_a64
-            a64 = c01_a64.run(chk, os.path.join(base, "a64"), stats, samples)
+            a64 = a64_part(chk, os.path.join(base, "a64"), stats, samples)
     cov = {k: (sorted(v) if isinstance(v, set) else v) for k, v in stats.items() if k != "distinct"}
     cov.update({
         "distinct_nontrivial": len(stats["distinct"]) + a64.get("distinct", 0),
+        "evaluations": stats["evaluations"],
         "rule": "x86-64: every (definition kind, reference kind, addend, output kind) with the reference form "
                 "meaningful for the definition class (relmatrix.applicable) is linked alone by wild; GNU ld "
                 "acceptance by gc-root batches with per-cell confirmation; accepted cells packed into one "
